@@ -6,7 +6,7 @@ EXTENDS MeshADT, Json
 Pool3 == << <<1,2,3>>,     \* f1
             <<2,1,4>>,     \* f2 shares side 1-2 with f1 (opposite direction)
             <<1,2,3>>,     \* f3 duplicate of f1 (different pointer)
-            <<3,3,4>>,     \* f4 degenerate
+            <<4,3,3>>,     \* f4 degenerate, corners 2 and 3 equal (the maps below create <<v,v,w>> and <<v,w,v>> ones)
             <<3,4,1>> >>   \* f5
 Pool3s == << <<1,2,3>>, <<3,3,4>> >>   \* small pool for the derived-mesh config
 Maps3 == << <<2,1,3,4>>,   \* swap the colliding pair
